@@ -1119,6 +1119,13 @@ func (ev *Eval) callExpr(c *ECall) (EVal, error) {
 			return ival(ite("(<= "+p+" "+q+")", p, q)), nil
 		}
 		return ival(ite("(>= "+p+" "+q+")", p, q)), nil
+	case "payload":
+		// the pointer carried by an interface value
+		a, err := arg(0)
+		if err != nil {
+			return EVal{}, err
+		}
+		return EVal{T: types.Typ[types.UnsafePointer], Terms: []string{"(i_pl " + ev.rv(a)[0] + ")"}}, nil
 	case "isnil":
 		a, err := arg(0)
 		if err != nil {
@@ -1169,6 +1176,10 @@ func (ev *Eval) callExpr(c *ECall) (EVal, error) {
 			return bval(t), nil
 		case "Str":
 			return EVal{T: types.Typ[types.String], Terms: []string{t}}, nil
+		case "Iface":
+			return EVal{T: types.NewInterfaceType(nil, nil), Terms: []string{t}}, nil
+		case "Ptr":
+			return EVal{T: types.Typ[types.UnsafePointer], Terms: []string{t}}, nil
 		}
 		return ival(t), nil
 	}
@@ -1259,6 +1270,9 @@ func (ev *Eval) modLoc(e Expr) ([]modLoc, error) {
 			return nil, err
 		}
 		if _, isP := v.T.Underlying().(*types.Pointer); isP {
+			return []modLoc{{a: ptrAddr(ev.rv(v)[0]), allObj: true}}, nil
+		}
+		if b, isB := v.T.Underlying().(*types.Basic); isB && b.Kind() == types.UnsafePointer {
 			return []modLoc{{a: ptrAddr(ev.rv(v)[0]), allObj: true}}, nil
 		}
 		if v.Addr == nil {
